@@ -583,11 +583,10 @@ def run(ctx):
     }
 
 
-PARTIAL = ["bbox_den assumes InRange = 'all coordinates are C ints' (true of every region the C code can hold; the model computes in unbounded Int)",
-           "the rectangle iterator is modelled by the sequence it yields (Region.rects), not by a small-step model of sPtrs/ptrPos; the real iterator (all four direction pairs) is driven by the correspondence run"]
+PARTIAL = ["bbox_den assumes InRange = 'all coordinates are C ints' (true of every region the C code can hold; the model computes in unbounded Int)"]
 ASSUMPTIONS = [
     "C int arithmetic does not overflow: sraRgnOffset / sraClipRect add coordinates; the model uses unbounded Int and the generators keep |coord|+|delta| < 2^31 (signed overflow is undefined behaviour in C)",
-    "operands are well-formed regions, i.e. built by the library's own API (sraRgnCreateRect returns the empty region for empty/inverted rectangles, so every region the API can build is well-formed: theorem wf_of_api)",
+    "operands are well-formed regions, i.e. built by the library's own API (sraRgnCreateRect returns the empty region for empty/inverted rectangles, so every region the API can build is well-formed: theorems createRect_wf, or_wf, and_wf, sub_wf, offset_wf, bbox_wf, popRect_some)",
     "dst and src of or/and/sub are distinct objects (the server never aliases them); `op rN rN` in scripts operates on an equal copy",
     "malloc never fails",
 ]
@@ -595,6 +594,6 @@ ASSUMPTIONS = [
 META = {
     "technique": "Lean 4 refinement proof (executable zipper model of rfbregion.c's span-list loops; generic span-list layer proved once and instantiated at the x and y level) + exact differential run of the model against the real sra* functions + in-harness bitmap oracle",
     "level_text": "Proof: Props/C11.lean proves for ALL well-formed regions (unbounded size and coordinates) that or/and/sub/offset/bbox/isEmpty/createRect/popRect/iteration of the model compute the pixel-set operation and preserve well-formedness. The model is tied to rfbregion.c on every run by an exact comparison of every result rectangle list (exhaustive pairs on small grids, long random histories) and a model-independent bitmap oracle.",
-    "level_note": "Trusted: Lean kernel, the correspondence run (testing; distribution in the evidence). Modelled: the span-list loops incl. mergePrevious/mergeNext, non-canonical results, INT_MAX seeds of bbox. Not modelled: pointer/sentinel structure (lists instead), malloc failure, int overflow (excluded), aliasing dst==src.",
+    "level_note": "Trusted: Lean kernel, the correspondence run (testing; distribution in the evidence). Modelled: the span-list loops incl. mergePrevious/mergeNext, non-canonical results, INT_MAX seeds of bbox. Modelled separately: the iterator's sPtrs/ptrPos state machine (IterModel.lean, refinement iter_refines, executed by the driver). Not modelled: pointer/sentinel structure of the span lists (lists instead), malloc failure, int overflow (excluded), aliasing dst==src.",
     "design_ref": "DESIGN.md section 7 C11, Appendix B",
 }
